@@ -86,6 +86,12 @@ def main(argv=None):
         return 1 if ctx.violations else 0
 
     if args.shard:
+        try:   # die with the parent (a killed run must not leave shards behind)
+            import ctypes
+            import signal
+            ctypes.CDLL('libc.so.6').prctl(1, signal.SIGKILL)
+        except Exception:  # noqa
+            pass
         i, n = (int(x) for x in args.shard.split('/'))
         ctx = core.Ctx(prop, args.tier, seed, (i, n))
         run_cases(ctx, mod, (i, n))
@@ -99,7 +105,7 @@ def main(argv=None):
     if jobs == 1:
         run_cases(ctx, mod, (0, 1))
     else:
-        timeout = getattr(mod, 'SHARD_TIMEOUT_S', {}).get(args.tier, 3600)
+        timeout = getattr(mod, 'SHARD_TIMEOUT_S', {}).get(args.tier, 900 if args.tier == 'quick' else 4 * 3600)
         tmp = tempfile.mkdtemp(prefix=f'gmv_{prop}_')
         try:
             procs = []
